@@ -289,6 +289,13 @@ func (c *Client) record(ps []refcodec.Packet, carrier string) {
 	}
 }
 
+// SetNoAutoPong switches the automatic heartbeat answers off or on.
+func (c *Client) SetNoAutoPong(v bool) {
+	c.mu.Lock()
+	c.Cfg.NoAutoPong = v
+	c.mu.Unlock()
+}
+
 // Received returns a snapshot of the packets received so far.
 func (c *Client) Received() []Recv {
 	c.mu.Lock()
@@ -646,7 +653,10 @@ func (c *Client) handle(ps []refcodec.Packet) (closed bool) {
 		case refcodec.Close:
 			return true
 		case refcodec.Ping:
-			if c.Cfg.Rev == 4 && !c.Cfg.NoAutoPong {
+			c.mu.Lock()
+			noPong := c.Cfg.NoAutoPong
+			c.mu.Unlock()
+			if c.Cfg.Rev == 4 && !noPong {
 				pong := refcodec.Packet{Type: refcodec.Pong, Data: p.Data}
 				c.mu.Lock()
 				tr := c.Cfg.Transport
